@@ -912,6 +912,72 @@ def system_part(pid, tier, seed):
     return {"lines": lines, "violations": violations, "known": known, "coverage": cov}
 
 
+def hook_part(seed):
+    """C07 on subclasses of Converter that override the documented `standardize_identifier` hook (the operational specification
+    models the exact class only): the answer-to-answer laws of C07 are evaluated on logged answers by spec/TraceHook.tla."""
+    import hashlib
+    import impl
+    import curies
+    I = impl.Interner()
+
+    class Digits(curies.Converter):          # validation: only digits are identifiers
+        def standardize_identifier(self, standard_prefix, identifier):
+            return identifier if identifier.isdigit() else None
+
+    class Banana(curies.Converter):          # standardisation: a redundant "PREFIX:" in front of the identifier is dropped
+        def standardize_identifier(self, standard_prefix, identifier):
+            head = standard_prefix + self.delimiter
+            return identifier[len(head):] if identifier.startswith(head) else identifier
+
+    class Upper(curies.Converter):           # rewriting and rejecting at once
+        def standardize_identifier(self, standard_prefix, identifier):
+            return identifier.upper() if identifier else None
+    recs = [{"p": "GO", "u": "http://purl.obolibrary.org/obo/GO_", "ps": ["go"], "us": ["https://identifiers.org/GO:"], "pat": None},
+            {"p": "OBO", "u": "http://purl.obolibrary.org/obo/", "ps": [], "us": [], "pat": None},
+            {"p": "", "u": "http://default.example/", "ps": ["dflt"], "us": [], "pat": None}]
+    calls, metas = [], []
+    for cls in (Digits, Banana, Upper):
+        for delim in (":", "/", "::"):
+            c = cls([impl.mk_record(r) for r in recs], delimiter=delim)
+            xs = []
+            for p in ("GO", "go", "OBO", "", "dflt", "nope"):
+                for ident in ("1", "0032571", "nope", "", "GO" + delim + "1", "a b", "x" + delim + "y"):
+                    xs.append(p + delim + ident)
+            for u in ("http://purl.obolibrary.org/obo/GO_", "https://identifiers.org/GO:", "http://purl.obolibrary.org/obo/", "http://default.example/", "http://unknown.example/"):
+                for ident in ("1", "nope", "", "GO_1"):
+                    xs.append(u + ident)
+            xs += ["", "GO", "nope", delim, "GO" + delim]
+            for x in dict.fromkeys(xs):
+                a = {}
+                for key, f in (("is_uri", lambda: c.is_uri(x)), ("is_curie", lambda: c.is_curie(x)), ("compress", lambda: c.compress(x)),
+                               ("compress@s", lambda: c.compress(x, strict=True)), ("compress_strict", lambda: c.compress_strict(x)),
+                               ("parse_uri", lambda: c.parse_uri(x, return_none=True)), ("expand", lambda: c.expand(x)),
+                               ("expand@s", lambda: c.expand(x, strict=True)), ("expand_strict", lambda: c.expand_strict(x)),
+                               ("parse_curie", lambda: c.parse_curie(x)), ("parse", lambda: c.parse(x, strict=False)),
+                               ("compress_or_standardize", lambda: c.compress_or_standardize(x))):
+                    a[key] = impl.call_out(I, lambda *_: f())
+                calls.append({"x": I(x), "delim": I(delim), "a": a})
+                metas.append({"hook": cls.__name__, "delimiter": delim, "x": x, "answers": {k: v for k, v in a.items()}})
+    groups = [calls[k:k + 100] for k in range(0, len(calls), 100)]
+    fails, st = tlc.validate_calls({"strs": I.table(), "groups": groups}, spec="TraceHook.tla", cfg="TraceHook.cfg", timeout=600)
+    lines, violations = [], 0
+    for g, k, clause in fails:
+        violations += 1
+        if violations <= 5:
+            m = metas[(g - 1) * 100 + (k - 1)]
+            d = os.path.join(tlc.VERIF, "out", "replays")
+            os.makedirs(d, exist_ok=True)
+            body = {"family": "hook", "property": "C07", "clause": list(clause), "case": {"hook": m["hook"], "delimiter": m["delimiter"], "x": m["x"]}}
+            path = os.path.join(d, "C07-" + hashlib.sha1(json.dumps(body, sort_keys=True).encode()).hexdigest()[:12] + ".json")
+            with open(path, "w") as f:
+                json.dump(body, f, indent=1, ensure_ascii=False)
+            lines.append(f"VIOLATION property=C07 replay={path}   # clause {'/'.join(clause)} on a Converter subclass overriding standardize_identifier ({m['hook']}), input {m['x']!r}")
+    return {"lines": lines, "violations": violations,
+            "coverage": {"subclasses": ["Digits (rejects)", "Banana (rewrites)", "Upper (both)"], "delimiters": [":", "/", "::"], "rows": len(calls), "call_validation": st,
+                         "laws": "is_uri <=> compress / parse_uri give a value; is_curie <=> expand gives a value; parse = parse_uri | parse_curie | nothing; "
+                                 "compress_or_standardize = CURIE of parse; compress_strict / expand_strict = the strict=True calls"}}
+
+
 def check(pid, tier, seed):
     t0 = time.time()
     sz = SIZES[tier]
@@ -1015,6 +1081,11 @@ def check(pid, tier, seed):
                 if violations <= 10:
                     path = replay_file(pid, tid, l, clause, [{"k": "repo-test-trace", "trace": tid, "event": rb["traces"][tid - 1]["events"][l - 1]["op"]}], 0, {})
                     lines.append(f"VIOLATION property={pid} replay={path}   # clause {key} in trace {tid} recorded from the repository's own tests")
+    hook = None
+    if pid == "C07":
+        hook = hook_part(seed)
+        lines += hook["lines"]
+        violations += hook["violations"]
     apa = apa_future.result() if apa_future else None
     apa_pool.shutdown()
     proof = tlaps_proof(pid) if pid in TLAPS else None
@@ -1035,7 +1106,7 @@ def check(pid, tier, seed):
                 "distinct operation lists executed on the implementation (each creates at least one converter and is followed by a probe table)",
         "exhaustive": all(not m["violated"] for m in models),
         "models": models, "trace_events": n_events, "event_kinds": kinds,
-        "simulation": sim_stats, "apalache_symbolic_check": apa, "tlaps_proof": proof, "repository_tests_as_driver": repo, "behaviours_from_tlc": n_hist, "spec_signature_coverage": STRATA.get(pid), "behaviours_from_simulation": len(sim_ops), "behaviours_random": n_plain - n_hist - n_cex - len(sim_ops),
+        "simulation": sim_stats, "apalache_symbolic_check": apa, "tlaps_proof": proof, "overridden_identifier_hook": hook["coverage"] if hook else None, "repository_tests_as_driver": repo, "behaviours_from_tlc": n_hist, "spec_signature_coverage": STRATA.get(pid), "behaviours_from_simulation": len(sim_ops), "behaviours_random": n_plain - n_hist - n_cex - len(sim_ops),
         "behaviours_hazard_strings_and_scale": len(oplists) - n_plain,
         "concretisations": CMAPS[tier], "trace_validation": st,
         "other_clauses_failed": other, "known_findings": [k["id"] for k in known],
